@@ -342,6 +342,7 @@ type RCase struct {
 	U     int      `json:"u"`
 	Size  int      `json:"size"`
 	Hist  []string `json:"hist"`
+	Warm  *string  `json:"warm"`
 }
 
 type RObs struct {
@@ -401,6 +402,17 @@ func runCase[U Uint](c *RCase) *RObs {
 %(optpart)s
 	if len(c.Hist) == 0 {
 		raw, _ := base64.StdEncoding.DecodeString(c.B64)
+		if c.Warm != nil {
+			// second use of one instance: parse another input first, then Buffer = …; Reset(); Parse()
+			wraw, _ := base64.StdEncoding.DecodeString(*c.Warm)
+			p := &%(struct)s[U]{Buffer: string(wraw)}
+			_ = p.Init(opts...)
+			parseOnce(p, c.Entry, &RObs{})
+			p.Buffer = string(raw)
+			p.Reset()
+			parseOnce(p, c.Entry, o)
+			return o
+		}
 		p := &%(struct)s[U]{Buffer: string(raw)}
 		_ = p.Init(opts...)
 		parseOnce(p, c.Entry, o)
